@@ -331,7 +331,20 @@ func genC07(r *plan.Rng, tier string) *plan.Plan {
 	p.Ctxs = []plan.CtxSpec{cs}
 	note(p, "ctx", cs.Kind)
 
-	sc := plan.Script{Src: pr.src, Inputs: []plan.Input{{Name: "lim", Val: plan.GoInt(limA)}, {Name: "k", Val: plan.GoInt(kA)}}}
+	// the same program at another place in the bytecode: a number of unrelated
+	// globals and constants in front of it moves every global index, constant
+	// index and jump offset of the program proper
+	src := pr.src
+	if rp := r.Fork(14); rp.Chance(2, 3) {
+		n := rp.Intn(70)
+		var pad []string
+		for i := 0; i < n; i++ {
+			pad = append(pad, "pd"+itoa(i)+" := "+itoa(1000+i))
+		}
+		src = lines(pad...) + src
+		param(p, "pad", int64(n))
+	}
+	sc := plan.Script{Src: src, Inputs: []plan.Input{{Name: "lim", Val: plan.GoInt(limA)}, {Name: "k", Val: plan.GoInt(kA)}}}
 	if pr.host {
 		sc.Inputs = append(sc.Inputs, plan.Input{Name: "tick", Host: "tick"})
 	}
